@@ -10,6 +10,7 @@ pub mod c12;
 pub mod c14;
 pub mod c15;
 pub mod c16;
+pub mod c17;
 pub mod c19;
 pub mod c20;
 
